@@ -573,3 +573,87 @@ def _listeners_contract(who, funcs):
 
 _listeners_contract("ephem", [f"{EPH}:Ephem.iter"])
 _listeners_contract("analytical", [f"{BASE}:AnalyticalPropagator.iter"])
+
+
+# ---------------------------------------------------------------------------------------------
+# a copy of a propagator is the same propagator (an orbit's copy, and every orbit propagate() / iter() return, integrate as the orbit itself does)
+# ---------------------------------------------------------------------------------------------
+
+class _Opaque:
+    """an argument the code under contract can only hand on (compared by identity)"""
+
+    def __init__(self, tag, **attrs):
+        self.tag = tag
+        self.__dict__.update(attrs)
+
+    def __repr__(self):
+        return f"<{self.tag}>"
+
+
+def _copy_contract(pid, label, ref, build):
+    @contract(pid, f"propagator_copy.{label}", funcs=[f"{ref}.copy", f"{ref}.__init__"], level="proof",
+              assumptions=["arguments that the constructor only stores are opaque objects compared by identity (frames, bodies, lists of bodies); numbers (tolerance, "
+                           "semi-major axis, steps) are symbolic reals"])
+    def _(c):
+        """proved: copy() builds, through the class's own constructor, an object every attribute of which equals the original's -- every setting given to the constructor
+        (step, bodies, method, frame, tolerance; semi-major axis; central / alternate bodies, steps; body, frame) is handed on, none is left to its default"""
+        if not c.symbolic:
+            return
+        w = c.world()
+        orig = build(c, w)
+        cp = orig.copy()
+        da = {k: v for k, v in object.__getattribute__(orig, "__dict__").items() if not k.startswith("_pv")}
+        db = {k: v for k, v in object.__getattribute__(cp, "__dict__").items() if not k.startswith("_pv")}
+        c.ensure("a_new_object_of_the_same_class", bool(cp is not orig and cp.__class__.__pv_real__ is orig.__class__.__pv_real__))
+        c.ensure("same_attributes", bool(set(da) == set(db)))
+        for k in sorted(da):
+            a, b = da[k], db.get(k)
+            if isinstance(a, (sym.SReal, sym.SInt)) or isinstance(b, (sym.SReal, sym.SInt)):
+                c.ensure(f"attribute.{k}", a == b)
+            elif hasattr(a, "s") and hasattr(b, "s") and not isinstance(a, _Opaque):   # symbolic timedelta
+                c.ensure(f"attribute.{k}", a.s == b.s)
+            elif isinstance(a, list):
+                c.ensure(f"attribute.{k}", bool(isinstance(b, list) and len(a) == len(b) and all(x is y for x, y in zip(a, b))))
+            else:
+                c.ensure(f"attribute.{k}", bool(a is b or (isinstance(a, (str, int, float, type(None))) and a == b)))
+    return _
+
+
+def _build_keplernum(c, w):
+    from pyvc.adt import SymTimedelta
+    method = c.choice("method", ["rk4", "euler", "dopri54", "rkf54"])
+    return w.new("beyond.propagators.keplernum:KeplerNum", SymTimedelta(c.real("step")), [_Opaque("body1"), _Opaque("body2")], method=method, frame=_Opaque("frame"),
+                 tol=c.real("tol", lo=0))
+
+
+def _build_cw(c, w):
+    # (the constructor accepts a frame of the Hill kind only: a real one, of either orientation)
+    from beyond.frames.frames import HillFrame
+    import beyond.frames.frames as fr
+    saved = fr.dynamic.get("Hill")
+    frame = HillFrame(c.choice("orientation", ["QSW", "TNW"]))
+    fr.dynamic["Hill"] = saved
+    return w.new("beyond.propagators.cw:ClohessyWiltshire", c.real("sma", lo=1), frame=frame)
+
+
+def _build_soi_num(c, w):
+    from pyvc.adt import SymTimedelta
+    method = c.choice("method", ["rk4", "dopri54"])
+    return w.new("beyond.propagators.soi:SoINumerical", SymTimedelta(c.real("central_step")), SymTimedelta(c.real("alt_step")), _Opaque("central", name="Earth"),
+                 [_Opaque("alt1", name="Moon"), _Opaque("alt2", name="Sun")], method=method, frame=_Opaque("frame"))
+
+
+def _build_soi_ana(c, w):
+    return w.new("beyond.propagators.soi:SoIAnalytical", _Opaque("central", name="Earth"), [_Opaque("alt1", name="Moon")], frame=_Opaque("frame"))
+
+
+def _build_jpl(c, w):
+    return w.new("beyond.env.jpl:JplPropagator", _Opaque("obj", name="Mars"), _Opaque("frame"))
+
+
+_copy_contract("C06", "KeplerNum", "beyond.propagators.keplernum:KeplerNum", _build_keplernum)
+_copy_contract("C08", "KeplerNum", "beyond.propagators.keplernum:KeplerNum", _build_keplernum)
+_copy_contract("C08", "ClohessyWiltshire", "beyond.propagators.cw:ClohessyWiltshire", _build_cw)
+_copy_contract("C08", "SoINumerical", "beyond.propagators.soi:SoINumerical", _build_soi_num)
+_copy_contract("C08", "SoIAnalytical", "beyond.propagators.soi:SoIAnalytical", _build_soi_ana)
+_copy_contract("C08", "JplPropagator", "beyond.env.jpl:JplPropagator", _build_jpl)
